@@ -5,7 +5,6 @@ import (
 	"github.com/NethermindEth/juno/core/felt"
 
 	"jsim/chaingen"
-	"jsim/harness/node"
 	"jsim/refstate"
 )
 
@@ -27,7 +26,7 @@ type payload struct {
 }
 
 func cleanPayload(m *chaingen.Block) payload {
-	return payload{b: node.CloneBlock(m.B), su: node.CloneStateUpdate(m.SU), classes: m.Classes}
+	return payload{b: CloneBlock(m.B), su: CloneStateUpdate(m.SU), classes: m.Classes}
 }
 
 // tamperKinds lists the single-field corruptions applicable to block m. Every one of them changes a
@@ -180,7 +179,7 @@ func (w *world) tamper(m *chaingen.Block, kind string) payload {
 		for _, h := range refstate.SortedFelts(m.Classes) {
 			def := m.Classes[h]
 			if sc, ok := def.(*core.SierraClass); ok && !done {
-				cp := node.Clone(sc)
+				cp := Clone(sc)
 				cp.ProgramHash = bump(cp.ProgramHash)
 				def = cp
 				done = true
